@@ -366,10 +366,13 @@ class MasterWorld:
             name, v = body[1], body[2]
             spec = cfg['servers'][name]
             if v != self.srv_variant.get(name):
+                # sproc/init._node_initialize: a cold-started node merges
+                # what it detects (capacity, traits) into its record and
+                # then registers; nobody posts a 'servers' event - the
+                # master re-reads the record because the server comes up
                 zkutils.update(admin, z.path.server(name),
                                _server_record(spec['variants'][v],
                                               spec['parent']))
-                masterapi.create_event(admin, 0, 'servers', [name])
                 self.srv_variant[name] = v
             node = self.tree.client()
             zkutils.put(node, z.path.server_presence(name), {},
@@ -464,6 +467,17 @@ class MasterWorld:
         elif kind == 'restart':
             self.start_master(cycle=cyc)
             return
+        elif kind == 'dup':
+            # a newly elected master finds an instance recorded under two
+            # servers (left behind by an older master; Loader.
+            # restore_placements has a branch for exactly this): a copy of
+            # the record appears under a second server and a master starts
+            inst, cur = self._dup_target(body[1], body[2])
+            data = zkutils.get_default(admin, z.path.placement(cur, inst))
+            zkutils.put(admin, z.path.placement(body[2], inst), data)
+            self.stats['dup_restarts'] += 1
+            self.start_master(cycle=cyc)
+            return
         elif kind == 'crash':
             self.crash_step(body[1], body[2],
                             event=tuple(body[3]) if len(body) > 3 else None)
@@ -477,6 +491,19 @@ class MasterWorld:
         self._track_states()
         if cyc:
             self.cycle()
+
+    def _dup_target(self, idx, other):
+        """(instance, server it is recorded under) if instance `idx` has
+        exactly one record and it is not under `other`, else None."""
+        live = self.live()
+        if idx >= len(live) or other not in self.children(z.PLACEMENT):
+            return None
+        inst = live[idx]
+        at = [s for s in self.children(z.PLACEMENT)
+              if inst in self.children(z.path.placement(s))]
+        if len(at) != 1 or at[0] == other:
+            return None
+        return inst, at[0]
 
     def _track_states(self, full=False):
         """Harness-side truth about server states, independent of the model.
@@ -727,6 +754,10 @@ class MasterWorld:
                     continue
                 if e[3] >= len(srv.apps):
                     continue
+            elif kind == 'dup':
+                if self._dup_target(e[1], e[2]) is None or \
+                        e[2] not in present:
+                    continue
             elif kind == 'bl':
                 cur = zkutils.get_default(self.admin, z.BLACKEDOUT_APPS) or []
                 if cur == cfg['blacklists'][e[1]]:
@@ -736,7 +767,7 @@ class MasterWorld:
                                      or not cfg.get('allow_nocycle', True)):
                     continue
                 if cyc == 'L' and (not cfg.get('allow_late', False) or kind in (
-                        'noop', 'tick', 'restart')):
+                        'noop', 'tick', 'restart', 'dup')):
                     continue
                 if cyc == 'L' and 'late_kinds' in cfg and \
                         kind not in cfg['late_kinds']:
